@@ -128,7 +128,8 @@ def _file_vps(content):
 class C40(Check):
     id = "C40"
     prop_file = "theories/Properties/Properties_C40.v"
-    theorems = ("C40_flat_map", "C40_flat_bindings_in_range", "C40_flat_bindings_disjoint", "C40_flat_strings",
+    theorems = ("C40_flat_map", "C40_flat_bindings_in_range", "C40_flat_bindings_disjoint", "C40_flat_bindings_inside_cpuset",
+                "C40_flat_strings",
                 "C40_malformed_falls_back_to_flat", "C40_unreadable_file_falls_back_to_flat",
                 "C40_rr_refuted", "C40_rr_never_a_map", "C40_file_refuted", "C40_file_never_a_map",
                 "C40_binding_counts", "C40_binding_range_in_range", "C40_binding_list_in_range",
@@ -143,7 +144,8 @@ class C40(Check):
                   "_from_parameters (rr), _from_file and the three binding syntaxes of parse_binding_parameter over an abstract core "
                   "count R. Proved for every input: flat maps (NULL, flat..., and every string that is none of the documented "
                   "syntaxes, unparsable rr, unreadable file) give one VP with the requested threads, bindings pairwise disjoint and "
-                  "inside [0,R) when 1 <= threads <= R; counts of the binding syntaxes match the request and range/list bindings are "
+                  "inside [0,R) when 1 <= threads <= R, and -- through the model of parsec_find_core_by_idx / "
+                  "parsec_select_vpmap_thread_core -- bound to cores of the process cpuset for any finite cpuset; counts of the binding syntaxes match the request and range/list bindings are "
                   "in range. Refuted (the code does not implement what is documented; witnesses replayed on the real code in a forked "
                   "child): rr:n:p:c with n >= 1 always crashes (stub, NULL map), every readable file: map either crashes (at least one "
                   "line applies to the process) or yields zero VPs; a mask can bind outside the cores. Partial: the hwloc map is not "
@@ -159,9 +161,13 @@ class C40(Check):
             "-1/0/1; file: generated map files (rank-prefixed, colon-initial, malformed and blank lines, octal/hex ranks, with and "
             "without final newline); nofile; bind R nbth binding: the three binding syntaxes called directly (lists with ranges, "
             "start;end;step with missing/invalid parts, masks around bit R); pinit: the user path through parsec_init with "
-            "PARSEC_MCA_runtime_vpmap. Non-trivial = everything except the plain 'flat'/NULL strings; distinct = distinct case text")
+            "PARSEC_MCA_runtime_vpmap; cinit nb sing cpus: the same path in a child restricted by sched_setaffinity to a cpuset with "
+            "holes (single-cpu holes, wide holes, several holes, first cpu not 0), observing es->core_id and the real affinity "
+            "of every thread. Non-trivial = everything except the plain 'flat'/NULL strings; distinct = distinct case text")
     trusted = ("harness/h_vpmap.c (see level_note); glibc prints '(null)' for a NULL %s argument (part of the modelled behaviour)",)
-    assumptions = ("hwloc supplies the number of binding resources R >= 1 and its bitmap primitives behave as sets; the hwloc map and "
+    assumptions = ("one processing unit per core and cpu numbers = core numbers on the test machine (cinit cases are generated only "
+                   "when cpus 0..7 are available)",
+                   "hwloc supplies the number of binding resources R >= 1 and its bitmap primitives behave as sets; the hwloc map and "
                    "the later consumption of the masks by parsec.c (selection of one allowed core) are outside the model",
                    "the process is MPI rank 0; lines of a map file are shorter than getline's initial buffer (120 bytes)",
                    "numbers in specifications fit an int; thread counts in files use integer syntax")
@@ -369,6 +375,28 @@ class C40(Check):
                    (2, "file:/nonexistent-dir/verif-vpmap-no-such-file"), (2, "rr:2:2"))
             for nb, spec in (pin[:3] if q else pin):
                 out.append("pinit %d %s" % (nb, spec))
+        # --- the user's path under a restricted process cpuset (taskset / batch scheduler): the default flat map
+        # must bind every thread inside the cpuset, whatever its shape (holes, first cpu not 0)
+        try:
+            avail = os.sched_getaffinity(0)
+        except AttributeError:
+            avail = set()
+        if all(c in avail for c in range(8)):
+            sets = [(0, 0, "2,3,5"), (2, 0, "2,3,5"), (0, 0, "0,1,2,3,4,6,7"), (2, 0, "1,2,3,5,6"), (0, 1, "0,1,3"),
+                    (3, 0, "1,2,3,4,6,7"), (0, 0, "2,3,7"), (3, -1, "0,2,4,6"), (0, 0, "4,5,6,7"), (2, 0, "3,4,7"),
+                    (0, 0, "0,1,2,3,4,5,7"), (7, 0, "0,2,3,4,5,6,7"), (4, 1, "0,3,4,7")]
+            for nb, sing, cpus in (sets[:6] if q else sets):
+                out.append("cinit %d %d %s" % (nb, sing, cpus))
+            for _ in range(6 if q else 60):
+                k = r.range(2, 7)
+                cpus = sorted(r.shuffle(range(8))[:k])
+                if r.chance(1, 2) and k >= 3:          # exactly one single-cpu hole in the span
+                    lo = r.range(0, 8 - (k + 1))
+                    span = list(range(lo, lo + k + 1))
+                    span.pop(r.range(1, k - 1))
+                    cpus = span
+                out.append("cinit %d %d %s" % (r.pick([0, 0, r.range(1, k), k, k + 2]), r.pick([0, 0, 1, -1]),
+                                              ",".join(str(c) for c in cpus)))
         return out
 
     def nontrivial_key(self, case):
@@ -432,6 +460,25 @@ class C40(Check):
             if why:
                 tag = "rr-unimplemented" if rrish else "spec-map"
                 return "%s: specification %r: %s" % (tag, spec, why)
+            return None
+        if kind == "cinit":
+            nb, cpus = int(w[1]), sorted(set(int(c) for c in w[3].split(",")))
+            want = len(cpus) if nb <= 0 or nb > len(cpus) else nb
+            if crashed:
+                return "cpuset-crash: parsec_init died under the process cpuset {%s} (%s)" % (w[3], obs[:20])
+            m = re.match(r"vps=(-?\d+) total=(-?\d+) \|(.*)$", obs)
+            if not m:
+                return "cpuset-crash: unparsable observation " + obs[:60]
+            ths = m.group(3).split()
+            if int(m.group(1)) != 1 or int(m.group(2)) != want or len(ths) != want:
+                return "cpuset-count: cpuset {%s}, %d cores requested: %s virtual processes, %s threads (%d described), expected 1 / %d" % (
+                    w[3], nb, m.group(1), m.group(2), len(ths), want)
+            for t, th in enumerate(ths):
+                core, _, aff = th.partition(":")
+                if int(core) not in cpus:
+                    return "cpuset-escape: thread %d is assigned core %s, outside the process cpuset {%s}" % (t, core, w[3])
+                if aff != "ok":
+                    return "cpuset-escape: thread %d runs with affinity %s, outside the process cpuset {%s}" % (t, aff, w[3])
             return None
         if kind == "file":
             R = int(w[1])
@@ -500,6 +547,6 @@ class C40(Check):
                     for s in ("NULL", "S:flat", "S:bogus", "S:rr:1", "S:display:flat"):
                         out.append("init %d %d %d %s" % (R, sing, nb, s))
             for nbth in range(1, R + 2):
-                for b in ("0-%d" % (R - 1), ";", ";;2", "0;%d;1" % (R - 1), "1;;", "0x%x" % ((1 << R) - 1), ",".join(str(i % R) for i in range(nbth))):
+                for b in (("0-%d" % (R - 1)) if nbth > 1 else "0", ";", ";;2", "0;%d;1" % (R - 1), "1;;", "0x%x" % ((1 << R) - 1), ",".join(str(i % R) for i in range(nbth))):
                     out.append("bind %d %d %s" % (R, nbth, b))
         return out
